@@ -324,8 +324,10 @@ def stillRelevantAfter (c : Chain) (blk : List Tx) (t : Tx) : Bool :=
     | some total => decide (total ≤ left)
 
 /-- what `dao.StoreAsTransaction(y, index)` (dao.go:948-992) does to the records `HasTransaction` reads: `y` itself
-becomes a transaction; under every hash `y` names (unless a block is stored there) the stub gets the new index and
-every signer of `y` a per-signer record with it (older per-signer records of other accounts stay). -/
+becomes a transaction; under every hash `y` names (unless a block is stored there — a transaction stored there IS
+overwritten) the stub gets the new index and every signer of `y` a per-signer record with it (older per-signer records
+of other accounts stay). Not modelled: per-signer records left behind under a hash that later becomes a transaction
+(a transaction whose hash was named before; it cannot be named again while it is on chain). -/
 def storeTx (lookup : Nat → Rec) (y : Tx) (index : Nat) : Nat → Rec := fun h =>
   if h = y.hash then .tx
   else if (conflictHashes y).contains h then
